@@ -1,5 +1,4 @@
 """Spawn-based process pool; every worker imports TF once and takes whole items."""
-import concurrent.futures as cf
 import importlib
 import multiprocessing as mp
 import os
@@ -36,8 +35,57 @@ def _work(args):
   return c.export()
 
 
+def _worker_main(env, conn):
+  """Worker process: takes one chunk at a time from the parent over its own pipe."""
+  try:
+    _init(env)
+  except BaseException:  # pylint: disable=broad-except
+    conn.send(("init-error", traceback.format_exc()[-1500:]))
+    return
+  while True:
+    try:
+      msg = conn.recv()
+    except (EOFError, OSError):
+      return
+    if msg is None:
+      return
+    try:
+      res = ("done", _work(msg))
+    except BaseException:  # pylint: disable=broad-except
+      res = ("error", traceback.format_exc()[-1500:])
+    conn.send(res)
+
+
+class _Worker(object):
+
+  def __init__(self, mpctx, env):
+    self.conn, child = mpctx.Pipe()
+    self.proc = mpctx.Process(target=_worker_main, args=(env, child), daemon=True)
+    self.proc.start()
+    child.close()
+    self.idx = None
+
+  def stop(self):
+    try:
+      self.conn.send(None)
+    except (OSError, ValueError, BrokenPipeError):
+      pass
+    self.proc.join(timeout=10)
+    if self.proc.is_alive():
+      self.proc.terminate()
+    self.conn.close()
+
+
 def pmap(ctx, modname, funcname, items, workers=None, chunk=None):
-  """Runs module.func(child_ctx, item) for all items; merges into ctx."""
+  """Runs module.func(child_ctx, item) for all items; merges into ctx.
+
+  The parent hands chunks to worker processes over per-worker pipes, so it always
+  knows which chunk a worker holds. A worker that dies (abort / segfault inside the
+  library, OOM kill) is replaced; its chunk is re-run item by item, and an item whose
+  process dies twice in a row when run alone is recorded as a violation
+  (kind=worker-process-died) instead of aborting the whole check."""
+  from multiprocessing.connection import wait
+  import collections
   items = list(items)
   if not items:
     return
@@ -49,15 +97,85 @@ def pmap(ctx, modname, funcname, items, workers=None, chunk=None):
     return
   if chunk is None:
     chunk = max(1, len(items) // (workers * 4))
-  # Interleave so heavy neighbouring items spread over workers.
   chunks = [items[i:i + chunk] for i in range(0, len(items), chunk)]
   env = {k: v for k, v in os.environ.items()
          if k.startswith(("VT_", "VERIF_", "TF_", "PYTHON", "TENSORFLOW_", "CUDA_"))}
-  with cf.ProcessPoolExecutor(max_workers=workers,
-                              mp_context=mp.get_context("spawn"),
-                              initializer=_init, initargs=(env,)) as ex:
-    futs = [ex.submit(_work, (modname, funcname, ctx.pid, ctx.tier, ctx.seed,
-                              ctx.level, ctx.budget_s, ctx.t0, ch))
-            for ch in chunks]
-    for f in futs:
-      ctx.merge(f.result())
+  mpctx = mp.get_context("spawn")
+
+  def args_for(ch):
+    return (modname, funcname, ctx.pid, ctx.tier, ctx.seed, ctx.level, ctx.budget_s, ctx.t0, ch)
+
+  todo = collections.deque(range(len(chunks)))
+  deaths = collections.Counter()
+  pool = [_Worker(mpctx, env) for _ in range(workers)]
+
+  def assign(w):
+    if todo:
+      w.idx = todo.popleft()
+      try:
+        w.conn.send(args_for(chunks[w.idx]))
+      except (OSError, ValueError, BrokenPipeError):
+        pass  # the death is noticed through the sentinel below
+    else:
+      w.idx = None
+
+  def died(w, why):
+    idx = w.idx
+    w.idx = None
+    try:
+      w.conn.close()
+    except OSError:
+      pass
+    w.proc.join(timeout=5)
+    pool.remove(w)
+    if idx is not None:
+      ch = chunks[idx]
+      if len(ch) > 1:
+        # isolate: every item of the chunk becomes its own chunk
+        for it in ch:
+          chunks.append([it])
+          todo.append(len(chunks) - 1)
+      else:
+        deaths[idx] += 1
+        if deaths[idx] < 2:
+          todo.appendleft(idx)
+        else:
+          ctx.violation({"kind": "worker-process-died", "where": "%s.%s" % (modname, funcname)},
+                        {"item": ctxmod.jsonable(ch[0])},
+                        "the process exploring item %r died twice in a row when the item was run "
+                        "alone (%s): abort / crash inside the library" % (ch[0], why))
+    nw = _Worker(mpctx, env)
+    pool.append(nw)
+    assign(nw)
+
+  try:
+    for w in list(pool):
+      assign(w)
+    while any(w.idx is not None for w in pool):
+      busy = [w for w in pool if w.idx is not None]
+      ready = wait([w.conn for w in busy] + [w.proc.sentinel for w in busy], timeout=10)
+      for w in busy:
+        if w not in pool:
+          continue
+        if w.conn in ready:
+          try:
+            kind, payload = w.conn.recv()
+          except (EOFError, OSError):
+            died(w, "exit code %s" % w.proc.exitcode)
+            continue
+          if kind == "done":
+            ctx.merge(payload)
+          elif kind == "init-error":
+            raise RuntimeError("worker could not initialise:\n" + payload)
+          else:
+            ctx.violation({"kind": "harness-or-library-exception", "where": "%s.%s" % (modname, funcname)},
+                          {"item": ctxmod.jsonable(chunks[w.idx][0])}, payload)
+          assign(w)
+        elif w.proc.sentinel in ready:
+          # drained pipe and dead process
+          if w.conn.poll():
+            continue  # a result is still in the pipe: handled on the next round
+          died(w, "exit code %s" % w.proc.exitcode)
+  finally:
+    for w in pool:
+      w.stop()
